@@ -20,7 +20,7 @@ def selftest(tier):
 
 def obligations(tier, seed):
     import random
-    t = 450 if tier == 'quick' else 1200
+    t = 240 if tier == 'quick' else 1200
     rnd = random.Random(seed)
     n = len(skeletons.TEMPLATES)
     k2s = list(range(n))
